@@ -127,6 +127,22 @@ PROPS = {
         level_note="exhaustive over (set, byte) and offsets 0..33, not over all strings; trusted: ref_sets.h, ref_url.h",
         exhaustive=True,
     ),
+    "C12": dict(
+        legs=[dict(monitor="c12", config="asan", cases=K(150000, 15000000))],
+        rule="operation histories (0-30 ops, thorough 0-40: append/set/remove(1,2)/has(1,2)/get/get_all/sort/reset/iterate(keys,values,entries,index,range-for,front/back)/"
+             "copy/move/to_string+reparse) over a small key alphabet with many duplicates, BMP vs supplementary names whose UTF-16 order differs from code-point order, "
+             "combining sequences, empty names, invalid-UTF-8 names, and init strings built from '&', '=', '+', '%' shapes and raw bytes; the whole list is compared with an "
+             "executable list-of-pairs model after every operation; plus serialise->parse identity on lists of arbitrary byte-string pairs. "
+             "Non-trivial: history with a sort on a list holding duplicate names with different values, or a set on a name occurring more than once. "
+             "Distinct: hash of the (op, duplicate-count class) sequence.",
+        floors=dict(any={"histories_run": 10000, "sorts_with_duplicate_names": 500, "sets_on_duplicate_names": 500, "serialise_parse_roundtrips": 10000, "selftest_vectors": 30}),
+        assumptions=["model transliterated from url.spec.whatwg.org (urlencoded parser/serialiser, URLSearchParams methods), byte-preserving as the property states (no UTF-8 decode step)",
+                     "for names that are not valid UTF-8 the UTF-16 order is undefined: only permutation, stability for equal names and the UTF-16 order of the valid names are demanded",
+                     "model gated in every run on 33 parser vectors from WPT urlencoded-parser, the serialiser and the WPT sort example"],
+        technique="history monitor against an executable sequential model (list of pairs), compared after every operation, under ASan/UBSan",
+        level_text="Every operation of every generated history is replayed on a list-of-pairs model and the complete observable list is compared afterwards.",
+        level_note="trusted: the 60-line model in monitors/c12.cpp (self-tested per run); histories up to 40 ops",
+    ),
     "C16": dict(
         legs=[dict(monitor="idna", config="asan", name="idna:c16/asan", args=["--mode", "c16"], cases=K(300000, 30000000))],
         rule="pairs of domain spellings related by a generator-known equivalence (NFD form, reordering of adjacent marks with distinct non-zero ccc, ASCII case, "
